@@ -678,3 +678,94 @@ theorem holdInv_step (c : Cfg) (s : St) (op : Op) (h : HoldInv s) : HoldInv (ste
           · exact holdInv_of_off ((turnStart_hold c _ _).1.trans hh') ((turnStart_hold c _ _).2.trans he')
 
 end MpfVerif.Player
+
+namespace MpfVerif.Player
+
+/-! events of devices that write through `Player.__setattr__`: all of them carry the number they were computed for -/
+
+theorem setVar_num (m : Vars) (num : Nat) (k : String) (v : Val) : ∀ e ∈ (setVar m num k v).2, e.num = num ∧ e.name = k := by
+  intro e he
+  unfold setVar at he
+  simp only [] at he
+  split at he
+  · simp at he; subst he; exact ⟨rfl, rfl⟩
+  · simp at he
+
+theorem devEv_num (d : Dev) (m : Vars) (num : Nat) (v : Val) : ∀ e ∈ devEv d m num v, e.num = num := by
+  intro e he
+  unfold devEv at he
+  split at he
+  · exact (setVar_num _ _ _ _ e he).1
+  · simp at he
+
+theorem loadEvs_num (devs : List Dev) (num : Nat) (m : Vars) : ∀ e ∈ loadEvs devs num m, e.num = num := by
+  induction devs generalizing m with
+  | nil => intro e he; simp [loadEvs] at he
+  | cons d r ih =>
+    intro e he
+    simp only [loadEvs, List.mem_append] at he
+    rcases he with he | he
+    · exact devEv_num _ _ _ _ e he
+    · exact ih _ e he
+
+theorem tickEvs_num (devs : List Dev) (num : Nat) (ls : List Loc) (m : Vars) : ∀ e ∈ tickEvs devs num ls m, e.num = num := by
+  induction devs generalizing ls m with
+  | nil => intro e he; simp [tickEvs] at he
+  | cons d r ih =>
+    intro e he
+    simp only [tickEvs] at he
+    split at he
+    · simp only [List.mem_append] at he
+      rcases he with he | he
+      · exact devEv_num _ _ _ _ e he
+      · exact ih _ _ e he
+    · exact ih _ _ e he
+
+theorem elapseEvs_num (devs : List Dev) (num n : Nat) (ls : List Loc) (m : Vars) :
+    ∀ e ∈ elapseEvs devs num n ls m, e.num = num := by
+  induction n generalizing ls m with
+  | zero => intro e he; simp [elapseEvs] at he
+  | succ n ih =>
+    intro e he
+    simp only [elapseEvs, List.mem_append] at he
+    rcases he with he | he
+    · exact tickEvs_num _ _ _ _ e he
+    · exact ih _ _ e he
+
+theorem ballStartEvs_num (c : Cfg) (s : St) (i : Nat) : ∀ e ∈ ballStartEvs c s i, e.num = i + 1 := by
+  intro e he
+  unfold ballStartEvs at he
+  split at he
+  · exact loadEvs_num _ _ _ e he
+  · simp at he
+
+theorem setOn_num (s : St) (i : Nat) (k : String) (v : Val) : ∀ e ∈ (setOn s i k v).2, e.num = i + 1 :=
+  fun e he => (setVar_num _ _ _ _ e he).1
+
+theorem turnStart_num (c : Cfg) (s : St) (i : Nat) : ∀ e ∈ (turnStart c s i).2, e.num = i + 1 := by
+  intro e he
+  unfold turnStart at he
+  simp only [List.mem_append] at he
+  rcases he with he | he
+  · exact setOn_num _ _ _ _ e he
+  · exact ballStartEvs_num _ _ _ e he
+
+/-- every event of the ball end proper carries the number of the player who is up afterwards -/
+theorem drainStep_num (c : Cfg) (s : St) : ∀ e ∈ (drainStep c s).2, e.num = (drainStep c s).1.cur + 1 := by
+  simp only [drainStep]
+  split
+  · intro e he; simp at he
+  · split
+    · intro e he
+      rw [ballStart_cur, setOn_cur]
+      simp only [List.mem_append] at he
+      rcases he with he | he
+      · exact setOn_num _ _ _ _ e he
+      · exact ballStartEvs_num _ _ _ e he
+    · split
+      · intro e he; simp at he
+      · intro e he
+        rw [turnStart_cur]
+        exact turnStart_num _ _ _ e he
+
+end MpfVerif.Player
